@@ -307,11 +307,14 @@ fn served_shape(r: &Runner) -> Value {
     let Ok(stats) = rt.repo_manager().repo_stats() else {
         return Value::Null
     };
-    let mut shape: BTreeMap<String, bool> = BTreeMap::new();
-    for (publisher, stats) in stats.publishers.iter() {
-        shape.insert(publisher.to_string(), stats.objects > 0);
-    }
-    json!(shape)
+    // Only publishers that hold objects: an entry without objects exists
+    // or not depending on whether the publisher was added to the content
+    // log before a cut (the content log treats both alike).
+    let mut holding: Vec<String> = stats.publishers.iter()
+        .filter(|(_, stats)| stats.objects > 0)
+        .map(|(publisher, _)| publisher.to_string()).collect();
+    holding.sort();
+    json!(holding)
 }
 
 /// Checks right after a cut (and the restart, if it was a crash).
